@@ -342,6 +342,38 @@ func solveFile(file string, quickSec, fullSec int) SolveResult {
 	return last
 }
 
+var reseeded = []solverSpec{
+	{"z3-new", func(f string, s int) []string {
+		return []string{"z3-new", "smt.random_seed=17", "sat.random_seed=17", fmt.Sprintf("-T:%d", s), f}
+	}},
+	{"z3-new", func(f string, s int) []string {
+		return []string{"z3-new", "smt.random_seed=101", "smt.arith.random_initial_value=true", fmt.Sprintf("-T:%d", s), f}
+	}},
+	{"z3", func(f string, s int) []string { return []string{"z3", "smt.random_seed=23", fmt.Sprintf("-T:%d", s), f} }},
+	{"cvc5", func(f string, s int) []string {
+		return []string{"cvc5", "--incremental", "--seed=11", fmt.Sprintf("--tlimit=%d", s*1000), f}
+	}},
+}
+
+// solveFileReseeded races reseeded solver configurations; only an unsat answer is used.
+func solveFileReseeded(file string, sec int) SolveResult {
+	ctx, cancel := context.WithCancel(context.Background())
+	defer cancel()
+	ch := make(chan SolveResult, len(reseeded))
+	for _, sp := range reseeded {
+		go func(sp solverSpec) { ch <- runSolver(ctx, sp, file, sec) }(sp)
+	}
+	last := SolveResult{Status: "timeout"}
+	for range reseeded {
+		x := <-ch
+		if x.Status == "unsat" {
+			return x
+		}
+		last = x
+	}
+	return last
+}
+
 func firstLines(s string, n int) string {
 	ls := strings.Split(s, "\n")
 	if len(ls) > n {
@@ -406,6 +438,15 @@ func solveAllF(results []*FuncResult, limits func(o *Oblig) (int, int), par int)
 					if r2.Proved(j.o) {
 						r2.Solver += "(no-lemmas)"
 						j.o.Res = &r2
+					}
+				}
+				if !j.o.Res.Proved(j.o) && !j.o.WantSat && f > 0 && (j.o.Res.Status == "timeout" || j.o.Res.Status == "unknown") {
+					// last attempt: the same query with other random seeds (quantifier instantiation is sensitive to
+					// them; a proof that usually takes a second must not fail the check because of one unlucky run)
+					r4 := solveFileReseeded(file, f)
+					if r4.Proved(j.o) {
+						r4.Solver += "(reseeded)"
+						j.o.Res = &r4
 					}
 				}
 			}
